@@ -58,7 +58,7 @@ def record_problems(res, x, direct, gen, t_by_elem, method, n):
     return out
 
 
-def work(chunk, points=None, tier='quick'):
+def work(chunk, points=None, tier='quick', quick_slice=0):
     acc = fw.Acc()
     for spec in chunk:
         show = c01.spec_show(spec)
@@ -126,14 +126,14 @@ def work(chunk, points=None, tier='quick'):
                               'Derivative(%s, n=%d, %s, order=%d, gen=%r)(%r): error %.3g > K1=%g x estimate %.3g + '
                               'F=%g x S_n %.3g' % (show, n, method, order, gen, comb.x, err, K1, e, F, unit), rank)
 
-        c01.run_spec(spec, points, tier, visit)
+        c01.run_spec(spec, points, tier, visit, quick_slice, honesty=True)
     return acc
 
 
 def run(ctx):
     sp = c01.specs(ctx)
     points = cm.quick_points(ctx) if ctx.quick else cm.POINTS
-    acc = ctx.pmap(work, sp, chunk=1 if not ctx.quick else 2, points=points, tier=ctx.tier)
+    acc = ctx.pmap(work, sp, chunk=1 if not ctx.quick else 2, points=points, tier=ctx.tier, quick_slice=ctx.seed % 4)
     if CALIBRATE:
         import json
         print(json.dumps({k: v for k, v in sorted(acc.extra.items())}, indent=0))
